@@ -123,6 +123,20 @@ def oracle(case, rec):
     if not (np.array_equal(one, keep[0], equal_nan=True) and np.array_equal(dense, keep[1], equal_nan=True)
             and np.array_equal(np.asarray(sp.toarray()), keep[2], equal_nan=True)):
         raise Violation('C10/earlier-result-changed-by-a-later-request', 'a spectrum returned earlier was overwritten by the next call')
+    # one frequency buffer and one edges object serving two records in turn (refilled in place): the second spectrum must
+    # be that of the buffer's present contents
+    if isinstance(E(), np.ndarray):
+        fbuf, ebuf = np.array(fin), E()
+        try:
+            emd.spectra.hilberthuang(fbuf, astored.copy(), ebuf, mode=mode, return_sparse=False)
+            f_other = np.ascontiguousarray(fin[::-1])
+            fbuf[...] = f_other
+            second = np.asarray(emd.spectra.hilberthuang(fbuf, astored.copy(), ebuf, mode=mode, return_sparse=False))
+            fresh = np.asarray(emd.spectra.hilberthuang(f_other.copy(), astored.copy(), E(), mode=mode, return_sparse=False))
+        except Exception as e:
+            raise Violation('C10/raises/%s/refilled-buffer' % type(e).__name__, repr(e))
+        if second.shape != fresh.shape or not np.array_equal(second, fresh, equal_nan=True):
+            raise Violation('C10/stale-result-for-a-refilled-frequency-array', '')
     if not close(dense, H):
         where = 'below-first-edge' if below and close(dense[1:], H[1:]) else tag
         raise Violation('C10/hilberthuang/dense-vs-bruteforce/' + where,
